@@ -105,11 +105,11 @@ Qed.
 Lemma skipn_length_le {A} n (l : list A) : (length (skipn n l) <= length l)%nat.
 Proof. rewrite skipn_length; lia. Qed.
 
-Lemma run_py_fuel_mono : forall f1 f2 src ss ds d chunks,
+Lemma run_py_fuel_mono : forall f1 f2 src ss ds d chunks ol,
   (length d < f1)%nat -> (f1 <= f2)%nat ->
-  run_py f1 src ss ds d chunks = run_py f2 src ss ds d chunks.
+  run_py f1 src ss ds d chunks ol = run_py f2 src ss ds d chunks ol.
 Proof.
-  induction f1 as [|f1 IH]; intros f2 src ss ds d chunks H1 H2; [lia|].
+  induction f1 as [|f1 IH]; intros f2 src ss ds d chunks ol H1 H2; [lia|].
   destruct f2 as [|f2]; [lia|].
   cbn [run_py]. destruct d as [|cmd r]; [reflexivity|].
   cbn [length] in H1.
@@ -117,13 +117,14 @@ Proof.
   - destruct (parse_copy cmd r) as [[[off sz0] r']|] eqn:E; [|reflexivity].
     apply parse_copy_length in E.
     destruct ((off + (if sz0 =? 0 then 65536 else sz0) >? ss) || ((if sz0 =? 0 then 65536 else sz0) >? ds));
-      [reflexivity|]. apply IH; lia.
+      [reflexivity|]. destruct (_ >? ds - ol); [reflexivity|]. apply IH; lia.
   - destruct (cmd =? 0); [reflexivity|]. destruct (zlen r <? cmd); [reflexivity|].
+    destruct (cmd >? ds - ol); [reflexivity|].
     apply IH; [|lia]. unfold zskipn. pose proof (skipn_length_le (Z.to_nat cmd) r). lia.
 Qed.
 
-Lemma run_py_S f src ss ds d chunks :
-  run_py (S f) src ss ds d chunks =
+Lemma run_py_S f src ss ds d chunks ol :
+  run_py (S f) src ss ds d chunks ol =
     match d with
     | [] => finish ds chunks
     | cmd :: r =>
@@ -134,39 +135,42 @@ Lemma run_py_S f src ss ds d chunks :
           let sz := if sz0 =? 0 then 65536 else sz0 in
           if (off + sz >? ss) || (sz >? ds)
           then match r' with [] => finish ds chunks | _ => DErr end
-          else run_py f src ss ds r' (slice src off sz :: chunks)
+          else if sz >? ds - ol then DErr
+          else run_py f src ss ds r' (slice src off sz :: chunks) (ol + sz)
         end
       else if cmd =? 0 then DErr
       else if zlen r <? cmd then DErr
-      else run_py f src ss ds (zskipn cmd r) (zfirstn cmd r :: chunks)
+      else if cmd >? ds - ol then DErr
+      else run_py f src ss ds (zskipn cmd r) (zfirstn cmd r :: chunks) (ol + cmd)
     end.
 Proof. reflexivity. Qed.
 
-Definition runP src ss ds d chunks := run_py (S (length d)) src ss ds d chunks.
+Definition runP src ss ds d chunks ol := run_py (S (length d)) src ss ds d chunks ol.
 
-Lemma runP_nil src ss ds chunks : runP src ss ds [] chunks = finish ds chunks.
+Lemma runP_nil src ss ds chunks ol : runP src ss ds [] chunks ol = finish ds chunks.
 Proof. reflexivity. Qed.
 
-Lemma runP_copy src ss ds cmd r off sz0 r' chunks :
+Lemma runP_copy src ss ds cmd r off sz0 r' chunks ol :
   128 <= cmd -> parse_copy cmd r = Some (off, sz0, r') ->
   let sz := if sz0 =? 0 then 65536 else sz0 in
-  off + sz <= ss -> sz <= ds ->
-  runP src ss ds (cmd :: r) chunks = runP src ss ds r' (slice src off sz :: chunks).
+  off + sz <= ss -> sz <= ds - ol -> 0 <= ol ->
+  runP src ss ds (cmd :: r) chunks ol = runP src ss ds r' (slice src off sz :: chunks) (ol + sz).
 Proof.
-  intros Hc Hp sz H1 H2. unfold runP. rewrite run_py_S at 1.
+  intros Hc Hp sz H1 H2 H3. unfold runP. rewrite run_py_S at 1.
   destruct (128 <=? cmd) eqn:E; [|lia]. rewrite Hp. cbv zeta. fold sz.
   destruct ((off + sz >? ss) || (sz >? ds)) eqn:E2; [lia|].
+  destruct (sz >? ds - ol) eqn:E3; [lia|].
   apply parse_copy_length in Hp. cbn [length].
   symmetry; apply run_py_fuel_mono; lia.
 Qed.
 
-Lemma runP_insert src ss ds cmd r chunks :
-  0 < cmd < 128 -> cmd <= zlen r ->
-  runP src ss ds (cmd :: r) chunks = runP src ss ds (zskipn cmd r) (zfirstn cmd r :: chunks).
+Lemma runP_insert src ss ds cmd r chunks ol :
+  0 < cmd < 128 -> cmd <= zlen r -> cmd <= ds - ol ->
+  runP src ss ds (cmd :: r) chunks ol = runP src ss ds (zskipn cmd r) (zfirstn cmd r :: chunks) (ol + cmd).
 Proof.
-  intros Hc Hl. unfold runP. rewrite run_py_S at 1.
+  intros Hc Hl Hd. unfold runP. rewrite run_py_S at 1.
   destruct (128 <=? cmd) eqn:E; [lia|]. destruct (cmd =? 0) eqn:E0; [lia|].
-  destruct (zlen r <? cmd) eqn:E1; [lia|].
+  destruct (zlen r <? cmd) eqn:E1; [lia|]. destruct (cmd >? ds - ol) eqn:E2; [lia|].
   cbn [length]. unfold zskipn; pose proof (skipn_length_le (Z.to_nat cmd) r).
   symmetry; apply run_py_fuel_mono; lia.
 Qed.
@@ -178,25 +182,25 @@ Definition outc (chunks : list bytes) : bytes := concat (rev chunks).
 Lemma outc_cons c chunks : outc (c :: chunks) = outc chunks ++ c.
 Proof. unfold outc; cbn [rev]. rewrite concat_app. cbn [concat]. rewrite app_nil_r. reflexivity. Qed.
 
-Lemma run_copies src ss ds : forall fuel start len r chunks,
-  ss < 2 ^ 32 -> 0 <= start -> 0 <= len -> start + len <= ss -> len <= ds ->
+Lemma run_copies src ss ds : forall fuel start len r chunks ol,
+  ss < 2 ^ 32 -> 0 <= start -> 0 <= len -> start + len <= ss -> 0 <= ol -> len <= ds - ol ->
   len <= 65535 * Z.of_nat fuel ->
-  exists chunks', runP src ss ds (enc_copies fuel start len ++ r) chunks = runP src ss ds r chunks'
+  exists chunks', runP src ss ds (enc_copies fuel start len ++ r) chunks ol = runP src ss ds r chunks' (ol + len)
                   /\ outc chunks' = outc chunks ++ slice src start len.
 Proof.
-  induction fuel as [|f IH]; intros start len r chunks Hss Hs Hl Hb Hd Hf.
-  - assert (len = 0) by lia. subst len. exists chunks. cbn [enc_copies app]. rewrite slice_zero, app_nil_r. auto.
+  induction fuel as [|f IH]; intros start len r chunks ol Hss Hs Hl Hb Hol Hd Hf.
+  - assert (len = 0) by lia. subst len. exists chunks. cbn [enc_copies app]. rewrite slice_zero, app_nil_r, Z.add_0_r. auto.
   - cbn [enc_copies]. destruct (len <=? 0) eqn:E.
-    + assert (len = 0) by lia. subst len. exists chunks. cbn [app]. rewrite slice_zero, app_nil_r. auto.
+    + assert (len = 0) by lia. subst len. exists chunks. cbn [app]. rewrite slice_zero, app_nil_r, Z.add_0_r. auto.
     + set (c := Z.min len 65535).
       assert (Hc : 0 < c <= 65535) by lia.
       destruct (parse_copy_enc_copy start c (enc_copies f (start + c) (len - c) ++ r)) as (cmd & tl & He & Hcmd & Hp); [lia|lia|].
       rewrite He. cbn [app]. rewrite <- app_assoc.
-      pose proof (runP_copy src ss ds cmd _ start c _ chunks ltac:(lia) Hp) as HR. cbv zeta in HR.
+      pose proof (runP_copy src ss ds cmd _ start c _ chunks ol ltac:(lia) Hp) as HR. cbv zeta in HR.
       destruct (c =? 0) eqn:Ec; [lia|].
       rewrite HR by lia. clear HR.
-      destruct (IH (start + c) (len - c) r (slice src start c :: chunks)) as (chunks' & H1 & H2); try lia.
-      exists chunks'. split; [exact H1|].
+      destruct (IH (start + c) (len - c) r (slice src start c :: chunks) (ol + c)) as (chunks' & H1 & H2); try lia.
+      exists chunks'. split; [rewrite H1; f_equal; lia|].
       rewrite H2, outc_cons, <- app_assoc. f_equal.
       rewrite <- slice_split by lia. f_equal. lia.
 Qed.
@@ -204,21 +208,21 @@ Qed.
 Lemma copies_fuel_ok len : 0 <= len -> len <= 65535 * Z.of_nat (copies_fuel len).
 Proof. intros; unfold copies_fuel. rewrite Nat2Z.inj_succ, Z2Nat.id by lia. lia. Qed.
 
-Lemma run_inserts src ss ds : forall fuel data r chunks,
-  0 < zlen data -> zlen data <= 127 * Z.of_nat fuel ->
-  exists chunks', runP src ss ds (enc_inserts fuel data ++ r) chunks = runP src ss ds r chunks'
+Lemma run_inserts src ss ds : forall fuel data r chunks ol,
+  0 < zlen data -> zlen data <= 127 * Z.of_nat fuel -> zlen data <= ds - ol ->
+  exists chunks', runP src ss ds (enc_inserts fuel data ++ r) chunks ol = runP src ss ds r chunks' (ol + zlen data)
                   /\ outc chunks' = outc chunks ++ data.
 Proof.
-  induction fuel as [|f IH]; intros data r chunks H0 Hf; [lia|].
+  induction fuel as [|f IH]; intros data r chunks ol H0 Hf Hd; [lia|].
   cbn [enc_inserts]. destruct (zlen data >? 127) eqn:E.
   - cbn [app]. rewrite <- app_assoc.
     pose proof (zlen_firstn 127 data ltac:(lia)) as Hl.
-    rewrite runP_insert; [|lia|rewrite zlen_app; pose proof (zlen_nonneg (enc_inserts f (zskipn 127 data) ++ r)); lia].
+    rewrite runP_insert; [|lia|rewrite zlen_app; pose proof (zlen_nonneg (enc_inserts f (zskipn 127 data) ++ r)); lia|lia].
     rewrite zfirstn_app_exact, zskipn_app_exact by (symmetry; exact Hl).
     pose proof (zlen_skipn 127 data ltac:(lia)) as Hk.
-    destruct (IH (zskipn 127 data) r (zfirstn 127 data :: chunks)) as (chunks' & H1 & H2); try lia.
-    exists chunks'. split; [exact H1|]. rewrite H2, outc_cons, <- app_assoc. f_equal. apply zfirstn_zskipn.
-  - cbn [app]. rewrite runP_insert; [|lia|rewrite zlen_app; pose proof (zlen_nonneg r); lia].
+    destruct (IH (zskipn 127 data) r (zfirstn 127 data :: chunks) (ol + 127)) as (chunks' & H1 & H2); try lia.
+    exists chunks'. split; [rewrite H1; f_equal; lia|]. rewrite H2, outc_cons, <- app_assoc. f_equal. apply zfirstn_zskipn.
+  - cbn [app]. rewrite runP_insert; [|lia|rewrite zlen_app; pose proof (zlen_nonneg r); lia|lia].
     rewrite zfirstn_app_exact, zskipn_app_exact by reflexivity.
     exists (data :: chunks). split; [reflexivity|apply outc_cons].
 Qed.
@@ -245,30 +249,34 @@ Proof.
   - pose proof (zlen_nonneg y). specialize (IH H). lia.
 Qed.
 
-Lemma run_ops base target ss ds : forall ops r chunks,
-  ss = zlen base -> ss < 2 ^ 32 ->
-  Forall (fun o => op_okb base target o = true /\ zlen (piece base target o) <= ds) ops ->
-  exists chunks', runP base ss ds (concat (map (enc_op target) ops) ++ r) chunks = runP base ss ds r chunks'
+Lemma run_ops base target ss ds : forall ops r chunks ol,
+  ss = zlen base -> ss < 2 ^ 32 -> 0 <= ol ->
+  Forall (fun o => op_okb base target o = true) ops ->
+  ol + zlen (concat (map (piece base target) ops)) <= ds ->
+  exists chunks', runP base ss ds (concat (map (enc_op target) ops) ++ r) chunks ol
+                  = runP base ss ds r chunks' (ol + zlen (concat (map (piece base target) ops)))
                   /\ outc chunks' = outc chunks ++ concat (map (piece base target) ops).
 Proof.
-  induction ops as [|o ops IH]; intros r chunks Hss Hlt Hall.
-  - exists chunks. cbn. rewrite app_nil_r. auto.
-  - inversion Hall as [|? ? [Hok Hlen] Hall']; subst.
-    cbn [map concat]. rewrite <- app_assoc.
-    assert (Hstep : exists c1, runP base (zlen base) ds (enc_op target o ++ concat (map (enc_op target) ops) ++ r) chunks
-                               = runP base (zlen base) ds (concat (map (enc_op target) ops) ++ r) c1
+  induction ops as [|o ops IH]; intros r chunks ol Hss Hlt Hol Hall Hroom.
+  - exists chunks. cbn. rewrite app_nil_r, Z.add_0_r. auto.
+  - inversion Hall as [|? ? Hok Hall']; subst.
+    cbn [map concat] in *. rewrite <- app_assoc. rewrite zlen_app in *.
+    pose proof (zlen_nonneg (concat (map (piece base target) ops))) as Hrest.
+    pose proof (zlen_nonneg (piece base target o)) as Hp0.
+    assert (Hstep : exists c1, runP base (zlen base) ds (enc_op target o ++ concat (map (enc_op target) ops) ++ r) chunks ol
+                               = runP base (zlen base) ds (concat (map (enc_op target) ops) ++ r) c1 (ol + zlen (piece base target o))
                                /\ outc c1 = outc chunks ++ piece base target o).
     { unfold enc_op, piece, op_okb in *. destruct (tg o).
       - assert (zlen (slice base (i1 o) (i2 o - i1 o)) = i2 o - i1 o) as Hz by (apply zlen_slice; lia).
-        apply run_copies; try lia. apply copies_fuel_ok; lia.
+        rewrite Hz in *. apply run_copies; try lia. apply copies_fuel_ok; lia.
       - assert (zlen (slice target (j1 o) (j2 o - j1 o)) = j2 o - j1 o) as Hz by (apply zlen_slice; lia).
-        apply run_inserts; [lia|apply inserts_fuel_ok].
+        apply run_inserts; [lia|apply inserts_fuel_ok|lia].
       - assert (zlen (slice target (j1 o) (j2 o - j1 o)) = j2 o - j1 o) as Hz by (apply zlen_slice; lia).
-        apply run_inserts; [lia|apply inserts_fuel_ok].
-      - exists chunks. cbn [app]. rewrite app_nil_r. auto. }
+        apply run_inserts; [lia|apply inserts_fuel_ok|lia].
+      - exists chunks. cbn [app]. rewrite app_nil_r. change (zlen (@nil Z)) with 0. rewrite Z.add_0_r. auto. }
     destruct Hstep as (c1 & R1 & O1).
-    destruct (IH r c1 eq_refl Hlt Hall') as (c2 & R2 & O2).
-    exists c2. split; [rewrite R1; exact R2|]. rewrite O2, O1, app_assoc. reflexivity.
+    destruct (IH r c1 (ol + zlen (piece base target o)) eq_refl Hlt ltac:(lia) Hall' ltac:(lia)) as (c2 & R2 & O2).
+    exists c2. split; [rewrite R1, R2; f_equal; lia|]. rewrite O2, O1, app_assoc. reflexivity.
 Qed.
 
 Lemma apply_create_py_lemma base target ops :
@@ -281,11 +289,11 @@ Proof.
   rewrite hdr_py_enc_size by apply zlen_nonneg.
   rewrite hdr_py_enc_size by apply zlen_nonneg.
   rewrite Z.eqb_refl.
-  change (run_py (S (length ?d)) ?a ?b ?c ?d ?e) with (runP a b c d e).
+  change (run_py (S (length ?d)) ?a ?b ?c ?d ?e ?g) with (runP a b c d e g).
   rewrite <- (app_nil_r (concat (map (enc_op target) ops))).
-  destruct (run_ops base target (zlen base) (zlen target) ops [] [] eq_refl Hb) as (c & R & O).
-  { rewrite Forall_forall. intros o Ho. split; [apply Hok; exact Ho|].
-    rewrite <- Heq at 2. apply zlen_concat_in. apply in_map. exact Ho. }
+  destruct (run_ops base target (zlen base) (zlen target) ops [] [] 0 eq_refl Hb ltac:(lia)) as (c & R & O).
+  { rewrite Forall_forall. intros o Ho. apply Hok; exact Ho. }
+  { rewrite Heq. lia. }
   rewrite R, runP_nil. unfold finish. fold (outc c). rewrite O, Heq. cbn [outc rev concat app].
   rewrite Z.eqb_refl. reflexivity.
 Qed.
@@ -340,8 +348,8 @@ Proof.
   rewrite Nat2Z.id. f_equal. lia.
 Qed.
 
-Lemma run_py_sound src ss ds delta : forall f d chunks out,
-  run_py f src ss ds d chunks = DOk out ->
+Lemma run_py_sound src ss ds delta : forall f d chunks ol out,
+  run_py f src ss ds d chunks ol = DOk out ->
   suffix d delta -> Forall (piece_ok src delta) chunks ->
   zlen out = ds /\ exists chunks', out = concat chunks' /\ Forall (piece_ok src delta) chunks'.
 Proof.
@@ -350,17 +358,19 @@ Proof.
   { unfold finish. intros chunks out H Hall. destruct (zlen (concat (rev chunks)) =? ds) eqn:E; [|discriminate].
     inversion H; subst. split; [lia|]. exists (rev chunks). split; [reflexivity|].
     rewrite Forall_forall in *. intros x Hx. apply Hall. apply in_rev. exact Hx. }
-  induction f as [|f IH]; intros d chunks out H S Hall; [discriminate|].
+  induction f as [|f IH]; intros d chunks ol out H S Hall; [discriminate|].
   rewrite run_py_S in H. destruct d as [|cmd r]; [eapply Fin; eassumption|].
   destruct (128 <=? cmd).
   - destruct (parse_copy cmd r) as [[[off sz0] r']|] eqn:E; [|discriminate].
     cbv zeta in H.
     destruct ((off + (if sz0 =? 0 then 65536 else sz0) >? ss) || ((if sz0 =? 0 then 65536 else sz0) >? ds)).
     + destruct r'; [eapply Fin; eassumption|discriminate].
-    + eapply IH; [exact H| |].
+    + destruct (_ >? ds - ol); [discriminate|].
+      eapply IH; [exact H| |].
       * eapply parse_copy_suffix; [exact E|]. eapply suffix_tail; eauto.
       * constructor; [|assumption]. left. eexists _, _. reflexivity.
   - destruct (cmd =? 0); [discriminate|]. destruct (zlen r <? cmd); [discriminate|].
+    destruct (cmd >? ds - ol); [discriminate|].
     eapply IH; [exact H| |].
     + apply suffix_skipn. eapply suffix_tail; eauto.
     + constructor; [|assumption]. right. apply firstn_suffix_is_slice. eapply suffix_tail; eauto.
@@ -376,12 +386,12 @@ Proof.
   destruct (ss =? zlen src); [|discriminate].
   pose proof (hdr_py_suffix _ _ _ _ _ delta E1 (suffix_refl delta)) as S1.
   pose proof (hdr_py_suffix _ _ _ _ _ delta E2 S1) as S2.
-  destruct (run_py_sound src ss ds delta _ _ _ _ H S2 (Forall_nil _)) as [Hl Hp].
+  destruct (run_py_sound src ss ds delta _ _ _ _ _ H S2 (Forall_nil _)) as [Hl Hp].
   split; [rewrite Hl; reflexivity|exact Hp].
 Qed.
 
 (* apply_py has no third outcome: the Python model cannot panic *)
-Lemma run_py_no_panic : forall f src ss ds d chunks, run_py f src ss ds d chunks <> DPanic.
+Lemma run_py_no_panic : forall f src ss ds d chunks ol, run_py f src ss ds d chunks ol <> DPanic.
 Proof.
   induction f as [|f IH]; intros; [discriminate|]. rewrite run_py_S.
   unfold finish. repeat (match goal with
@@ -524,21 +534,6 @@ Proof. unfold zlen, slice. rewrite firstn_length. lia. Qed.
 Lemma zlen_outc_cons c chunks : zlen (outc (c :: chunks)) = zlen (outc chunks) + zlen c.
 Proof. rewrite outc_cons, zlen_app. reflexivity. Qed.
 
-Lemma py_over src ss ds : forall f d chunks,
-  zlen (outc chunks) > ds -> run_py f src ss ds d chunks = DErr.
-Proof.
-  assert (Fin : forall chunks, zlen (outc chunks) > ds -> finish ds chunks = DErr).
-  { intros chunks H. unfold finish. fold (outc chunks). destruct (zlen (outc chunks) =? ds) eqn:E; [lia|reflexivity]. }
-  induction f as [|f IH]; intros d chunks H; [reflexivity|].
-  rewrite run_py_S. destruct d as [|cmd r]; [apply Fin; assumption|].
-  destruct (128 <=? cmd).
-  - destruct (parse_copy cmd r) as [[[off sz0] r']|]; [|reflexivity]. cbv zeta.
-    destruct (_ || _); [destruct r'; [apply Fin; assumption|reflexivity]|].
-    apply IH. rewrite zlen_outc_cons. pose proof (zlen_nonneg (slice src off (if sz0 =? 0 then 65536 else sz0))). lia.
-  - destruct (cmd =? 0); [reflexivity|]. destruct (zlen r <? cmd); [reflexivity|].
-    apply IH. rewrite zlen_outc_cons. pose proof (zlen_nonneg (zfirstn cmd r)). lia.
-Qed.
-
 Lemma fin_eq ds chunks r :
   fin_rs ds chunks (zlen (outc chunks)) r = match r with [] => finish ds chunks | _ => DErr end.
 Proof. unfold fin_rs, finish, outc. destruct r; reflexivity. Qed.
@@ -588,7 +583,7 @@ Proof. reflexivity. Qed.
 
 Lemma run_rel src ds : 0 <= ds < 2 ^ 64 -> zlen src < 2 ^ 64 ->
   forall f d chunks, wf_bytes d -> zlen (outc chunks) <= ds ->
-  run_rs f src (zlen src) ds d chunks (zlen (outc chunks)) = run_py f src (zlen src) ds d chunks.
+  run_rs f src (zlen src) ds d chunks (zlen (outc chunks)) = run_py f src (zlen src) ds d chunks (zlen (outc chunks)).
 Proof.
   intros Hds Hss. set (ss := zlen src) in *. assert (Hss0 : 0 <= ss) by apply zlen_nonneg.
   induction f as [|f IH]; intros d chunks Hw Ho; [reflexivity|].
@@ -613,7 +608,8 @@ Proof.
     replace (sz <=? ds) with true by lia.
     assert (Hsl : zlen (slice src off sz) = sz) by (apply zlen_slice; lia).
     destruct (zlen (outc chunks) >? ds - sz) eqn:E5.
-    { symmetry. apply py_over. rewrite zlen_outc_cons. lia. }
+    { replace (sz >? ds - zlen (outc chunks)) with true by lia. reflexivity. }
+    replace (sz >? ds - zlen (outc chunks)) with false by lia.
     unfold add64. replace (zlen (outc chunks) + sz <? 2 ^ 64) with true by lia.
     replace (zlen (outc chunks) + sz) with (zlen (outc (slice src off sz :: chunks))) by (rewrite zlen_outc_cons; lia).
     apply IH; [assumption|]. rewrite zlen_outc_cons. lia.
@@ -622,10 +618,9 @@ Proof.
     assert (Hfl : zlen (zfirstn cmd r) = cmd) by (apply zlen_firstn; lia).
     destruct (cmd >? ds) eqn:E1.
     { rewrite fin_eq. destruct r as [|x r0]; [rewrite zlen_nil in El; lia|].
-      symmetry. apply py_over. rewrite zlen_outc_cons. lia. }
+      replace (cmd >? ds - zlen (outc chunks)) with true by lia. reflexivity. }
     unfold sub64. replace (zlen (outc chunks) <=? ds) with true by lia.
-    destruct (cmd >? ds - zlen (outc chunks)) eqn:E2.
-    { symmetry. apply py_over. rewrite zlen_outc_cons. lia. }
+    destruct (cmd >? ds - zlen (outc chunks)) eqn:E2; [reflexivity|].
     unfold add64. replace (zlen (outc chunks) + cmd <? 2 ^ 64) with true by lia.
     replace (zlen (outc chunks) + cmd) with (zlen (outc (zfirstn cmd r :: chunks))) by (rewrite zlen_outc_cons; lia).
     apply IH.
@@ -634,14 +629,14 @@ Proof.
 Qed.
 
 (* output length bound: what Python can produce before the final size check *)
-Lemma run_py_len_bound src ss ds : forall f d chunks out,
-  wf_bytes d -> run_py f src ss ds d chunks = DOk out ->
+Lemma run_py_len_bound src ss ds : forall f d chunks ol out,
+  wf_bytes d -> run_py f src ss ds d chunks ol = DOk out ->
   zlen out <= zlen (outc chunks) + 2 ^ 24 * zlen d.
 Proof.
   assert (Fin : forall chunks out k, 0 <= k -> finish ds chunks = DOk out -> zlen out <= zlen (outc chunks) + k).
   { unfold finish. intros chunks out k Hk H. destruct (_ =? _); [|discriminate]. inversion H; subst. fold (outc chunks). lia. }
   change (2 ^ 24) with 16777216.
-  induction f as [|f IH]; intros d chunks out Hw H; [discriminate|].
+  induction f as [|f IH]; intros d chunks ol out Hw H; [discriminate|].
   rewrite run_py_S in H. destruct d as [|cmd r]; [change (zlen (@nil Z)) with 0; rewrite Z.mul_0_r; apply Fin; [lia|assumption]|].
   inversion Hw as [|? ? Hc Hw']; subst. unfold wf_byte in Hc. rewrite zlen_cons.
   pose proof (zlen_nonneg r) as Hr.
@@ -652,11 +647,13 @@ Proof.
     change (2 ^ 24) with 16777216 in Hsz0.
     cbv zeta in H. destruct (_ || _).
     + destruct r'; [|discriminate]. eapply Fin; [|eassumption]. lia.
-    + apply IH in H; [|assumption]. rewrite zlen_outc_cons in H.
+    + destruct (_ >? ds - ol); [discriminate|].
+      apply IH in H; [|assumption]. rewrite zlen_outc_cons in H.
       pose proof (zlen_slice_le src off (if sz0 =? 0 then 65536 else sz0)).
       assert (zlen r' <= zlen r) by (unfold zlen; lia).
       destruct (sz0 =? 0); lia.
   - destruct (cmd =? 0); [discriminate|]. destruct (zlen r <? cmd) eqn:El; [discriminate|].
+    destruct (cmd >? ds - ol); [discriminate|].
     apply IH in H; [|apply wf_bytes_skipn; assumption]. rewrite zlen_outc_cons in H.
     rewrite zlen_firstn in H by lia. rewrite zlen_skipn in H by lia. lia.
 Qed.
@@ -683,9 +680,9 @@ Proof.
   destruct (ds <? 2 ^ 64) eqn:Eds.
   - pose proof (run_rel src ds ltac:(lia) Hs (S (length d2)) d2 [] Hw2) as HR.
     change (zlen (outc [])) with 0 in HR. apply HR. lia.
-  - destruct (run_py (S (length d2)) src (zlen src) ds d2 []) as [out| |] eqn:ER; [|reflexivity|].
-    + pose proof (run_py_len_bound _ _ _ _ _ _ _ Hw2 ER) as Hb.
-      destruct (run_py_sound src (zlen src) ds d2 _ _ _ _ ER (suffix_refl d2) (Forall_nil _)) as [Hlen _].
+  - destruct (run_py (S (length d2)) src (zlen src) ds d2 [] 0) as [out| |] eqn:ER; [|reflexivity|].
+    + pose proof (run_py_len_bound _ _ _ _ _ _ _ _ Hw2 ER) as Hb.
+      destruct (run_py_sound src (zlen src) ds d2 _ _ _ _ _ ER (suffix_refl d2) (Forall_nil _)) as [Hlen _].
       exfalso. change (zlen (outc [])) with 0 in Hb. change (2 ^ 24) with 16777216 in Hb.
       change (2 ^ 40) with 1099511627776 in Hl. change (2 ^ 64) with 18446744073709551616 in Eds. lia.
     + exfalso. eapply run_py_no_panic; eauto.
@@ -718,27 +715,42 @@ Proof.
     rewrite zlen_skipn in IH by lia. lia.
 Qed.
 
-Lemma mat_py_bound ss ds : forall f d,
-  wf_bytes d -> 0 <= mat_py f ss ds d <= zlen d * Z.max 1 (Z.min ss ds).
+(* the Python decoder never holds more than the declared size *)
+Lemma mat_py_bound ss : forall f ds d outlen,
+  wf_bytes d -> 0 <= outlen <= ds ->
+  outlen <= mat_py f ss ds d outlen <= Z.min ds (outlen + 2 ^ 24 * zlen d).
 Proof.
-  set (K := Z.max 1 (Z.min ss ds)). assert (HK : 1 <= K) by (unfold K; lia).
-  induction f as [|f IH]; intros d Hw; pose proof (zlen_nonneg d) as Hd; [cbn [mat_py]; nia|].
-  cbn [mat_py]. destruct d as [|cmd r]; [nia|].
+  change (2 ^ 24) with 16777216.
+  induction f as [|f IH]; intros ds d outlen Hw Ho; pose proof (zlen_nonneg d) as Hd; [cbn [mat_py]; lia|].
+  cbn [mat_py]. destruct d as [|cmd r]; [lia|].
   inversion Hw as [|? ? Hc Hw']; subst. unfold wf_byte in Hc. rewrite zlen_cons in *.
   pose proof (zlen_nonneg r) as Hr.
   destruct (128 <=? cmd).
-  - destruct (parse_copy cmd r) as [[[off sz0] r']|] eqn:E; [|nia].
+  - destruct (parse_copy cmd r) as [[[off sz0] r']|] eqn:E; [|lia].
     pose proof (parse_copy_length _ _ _ _ _ E) as Hlen.
     apply parse_copy_nonneg in E; [|assumption]. destruct E as (Hoff & Hsz0 & Hw2).
-    cbv zeta. set (sz := if sz0 =? 0 then 65536 else sz0).
-    assert (0 < sz) by (unfold sz; destruct (sz0 =? 0) eqn:?; lia).
-    destruct (_ || _) eqn:Eb; [nia|].
-    assert (sz <= K) by (unfold K; lia).
+    change (2 ^ 24) with 16777216 in Hsz0. cbv zeta.
+    set (sz := if sz0 =? 0 then 65536 else sz0).
+    assert (0 < sz <= 16777216) by (unfold sz; destruct (sz0 =? 0) eqn:?; lia).
+    destruct (_ || _) eqn:Eb; [lia|]. destruct (sz >? ds - outlen) eqn:Er; [lia|].
     assert (zlen r' <= zlen r) by (unfold zlen; lia).
-    specialize (IH r' Hw2). nia.
-  - destruct (cmd =? 0) eqn:?; [nia|]. destruct (zlen r <? cmd) eqn:?; [nia|].
-    specialize (IH (zskipn cmd r) (wf_bytes_skipn _ _ Hw')).
-    rewrite zlen_skipn in IH by lia. nia.
+    specialize (IH ds r' (outlen + sz) Hw2 ltac:(lia)). lia.
+  - destruct (cmd =? 0) eqn:?; [lia|]. destruct (zlen r <? cmd) eqn:?; [lia|].
+    destruct (cmd >? ds - outlen) eqn:?; [lia|].
+    specialize (IH ds (zskipn cmd r) (outlen + cmd) (wf_bytes_skipn _ _ Hw') ltac:(lia)).
+    rewrite zlen_skipn in IH by lia. lia.
+Qed.
+
+(* the decoder that checked the total only at the end could be made to hold
+   65536 bytes per byte of delta whatever size the delta declared: n copy
+   operations of the whole of a 65536-byte base *)
+Lemma mat_py_late_unbounded : forall n : nat,
+  mat_py_late (S n) 65536 65536 (repeat 128 n) = 65536 * Z.of_nat n.
+Proof.
+  induction n as [|n IH]; [reflexivity|].
+  change (repeat 128 (S n)) with (128 :: repeat 128 n).
+  assert (E : forall k r, mat_py_late (S k) 65536 65536 (128 :: r) = 65536 + mat_py_late k 65536 65536 r) by reflexivity.
+  rewrite E, IH, Nat2Z.inj_succ. lia.
 Qed.
 
 (* ---------- non-vacuity: hypotheses are satisfiable, results non-trivial ---------- *)
